@@ -8,9 +8,11 @@
 (* witness is a shortest program reaching that abstract situation.           *)
 (* A repeated step is an explicit macro step (Twice) so that every           *)
 (* situation also gets a witness ending in "c; c".                           *)
-(* Record: <<"BEH", perfect, <<command strings>>, <<predicted exits>>>>      *)
-(* command string: op|d|src|type|enc|max|m|sh|copy                           *)
-EXTENDS Pipeline
+(* Record: <<"BEH", json>> with json = {"perfect":..,"nall":..,"prog":[command strings],*)
+(* "exits":[predicted exit codes],"pair":clause (a) relates the two         *)
+(* directories,"rep","op","ex","cls": the last command}; command string:    *)
+(*   op|d|src|type|enc|max|m|sh|copy                                        *)
+EXTENDS Pipeline, Json
 VARIABLES hist, exits, last
 gvars == <<vars, hist, exits, last>>
 
@@ -19,25 +21,32 @@ GenTypeEncs == {<<"image", "raw">>, <<"segmentation", "raw">>,
                 <<"segmentation", "compressed_segmentation">>}
 GenMaxes == {"all", "two", "one"}
 GenMaxesQuick == {"all", "one"}
-GenMethods == {"auto", "average", "majority", "stride"}
-GenMethodsQuick == {"auto", "majority", "stride"}
+GenMethods == {"auto", "majority", "stride"}
+GenMethodsQuick == {"auto", "majority"}
+GenTypeEncsQuick == {<<"image", "raw">>, <<"segmentation", "compressed_segmentation">>}
 GenShardings == {"nosh", "s110"}
-GenCfg == {[perfect |-> TRUE], [perfect |-> FALSE]}
-GenCfgQuick == {[perfect |-> TRUE]}
+GenCfg == {[perfect |-> TRUE, nall |-> 3]}
 
 Cs(c) == c.op \o "|" \o c.d \o "|" \o c.src \o "|" \o c.type \o "|" \o c.enc \o "|"
          \o c.max \o "|" \o c.m \o "|" \o c.sh \o "|" \o c.copy
 
-GenInit == Init /\ hist = << >> /\ exits = << >> /\ last = <<"-", 0, FALSE>>
+\* storage class the last command worked on (after the command):
+\* "S" sharded info, "P" unsharded info, "-" no info; Convert: source then destination
+ShOf(ds) == IF ds.info.n = 0 THEN "-" ELSE IF ds.info.sh = "nosh" THEN "P" ELSE "S"
+Class(c, D) == IF c.op = "Convert" THEN ShOf(D[c.src]) \o ShOf(D[c.d]) \o c.copy
+               ELSE IF c.op \in {"Vol", "Compute", "Stats"} THEN ShOf(D[c.d])
+               ELSE "-"
 
-Once(c) == LET r == Run(c, dirs, cfg.perfect) IN
+GenInit == Init /\ hist = << >> /\ exits = << >> /\ last = <<"-", 0, FALSE, "-">>
+
+Once(c) == LET r == Run(c, dirs, cfg) IN
            /\ Do(c)
            /\ hist' = Append(hist, Cs(c))
            /\ exits' = Append(exits, r.exit)
-           /\ last' = <<c.op, r.exit, FALSE>>
+           /\ last' = <<c.op, r.exit, FALSE, Class(c, r.dirs)>>
 
-Twice(c) == LET r1 == Run(c, dirs, cfg.perfect)
-                r2 == Run(c, r1.dirs, cfg.perfect)
+Twice(c) == LET r1 == Run(c, dirs, cfg)
+                r2 == Run(c, r1.dirs, cfg)
             IN
             /\ n + 2 <= MaxLen
             /\ c.op # "Stats"
@@ -47,10 +56,13 @@ Twice(c) == LET r1 == Run(c, dirs, cfg.perfect)
             /\ UNCHANGED cfg
             /\ hist' = hist \o <<Cs(c), Cs(c)>>
             /\ exits' = exits \o <<r1.exit, r2.exit>>
-            /\ last' = <<c.op, r2.exit, TRUE>>
+            /\ last' = <<c.op, r2.exit, TRUE, Class(c, r2.dirs)>>
 
-GenNext == \E c \in Alphabet : Once(c) \/ Twice(c)
+\* directories are interchangeable: the first command works on "A"
+GenNext == \E c \in Alphabet : (n = 0 => c.d = "A") /\ (Once(c) \/ Twice(c))
 GenSpec == GenInit /\ [][GenNext]_gvars
 GenView == <<cfg, dirs, prov, last>>
-Emit == n >= 1 => PrintT(<<"BEH", cfg.perfect, hist, exits>>)
+Emit == n >= 1 => PrintT(<<"BEH", ToJson([perfect |-> cfg.perfect, nall |-> cfg.nall, prog |-> hist, exits |-> exits,
+                                           pair |-> AioPairs(prov) # {}, rep |-> last[3],
+                                           op |-> last[1], ex |-> last[2], cls |-> last[4]])>>)
 =============================================================================
